@@ -74,7 +74,8 @@ def shifts(ctx):
     cls = ctx.fn(DI, 'Dislocation')
     loc = DI + '::Dislocation.__identify_shifts'
     R = sp.Rational
-    for tag, coords, w in (('three planes', [R(1, 2), 2, 3], 1), ('plane at the cell origin', [0, 1, 1, 2], 2), ('single plane', [R(4, 3)], 0), ('periodic copy at both edges', [0, 2, 4], 1)):
+    for tag, coords, w in (('three planes', [R(1, 2), 2, 3], 1), ('plane at the cell origin', [0, 1, 1, 2], 2), ('single plane', [R(4, 3)], 0), ('periodic copy at both edges', [0, 2, 4], 1),
+                           ('three planes, out-of-plane box vector tilted (longer than the period along n)', [R(1, 2), 2, 3], 1), ('periodic copy at both edges, tilted out-of-plane vector', [0, 2, 4], 2)):
         width = sp.Integer(4)
         pos = np.array([[R(1, 3), R(1, 7), R(2, 5)] for _ in coords], dtype=object)
         for r, c in enumerate(coords):
@@ -83,6 +84,8 @@ def shifts(ctx):
         V[...] = sp.Integer(0)
         for i in range(3):
             V[i, i] = width
+        if 'tilted' in tag:
+            V[w, (w + 1) % 3] = sp.Integer(3)      # |vect| = 5 while the period along n stays 4
 
         class RC(PyStub):
             box = Bx(V)
@@ -260,6 +263,21 @@ def monopole(ctx):
         ret = r[0].ret
         ctx.ob('MONOPOLE', loc, '%s: returns %s' % (tag, '(reference, dislocation)' if kw.get('return_base_system') else 'the dislocation system'),
                (isinstance(ret, tuple) and ret[0] is base and ret[1] is disl) if kw.get('return_base_system') else ret is disl, node=fn, key='ret ' + tag)
+    # which shift: a given shift / shift index (0 included) is set before it is used; with neither, the current one is kept
+    TS = symarray('t', (3,), real=True)
+    for tag, kw, want_call, want_shift in (('shiftindex=0', dict(shiftindex=0), (None, 0, False), TS), ('shiftindex=2', dict(shiftindex=2), (None, 2, False), TS),
+                                           ('shift vector, box-relative', dict(shift='V', shiftscale=True), ('V', None, True), TS), ('neither', {}, None, SH)):
+        obj, ev, log, base, copies = setup(1)
+        obj.attrs['set_shift'] = lambda *a, o=obj, l=log: (l.append(('set_shift', a)), o.attrs.__setitem__('shift', TS))[0]
+        try:
+            r = [q for q in ev.run_fn(fn, [obj], dict(kw)) if q.done == 'return']
+        except Opaque as e:
+            raise AnalysisError('monopole (%s): %s' % (tag, e))
+        calls = [l[1] for l in log if l[0] == 'set_shift']
+        wr = [l for l in log if l[0] == 'wrap']
+        ok = len(r) == 1 and (calls == [want_call] if want_call is not None else calls == []) and len(wr) >= 1 and equal(wr[0][2], P + want_shift, deep=False)
+        ctx.ob('MONOPOLE', loc, '%s: %s' % (tag, 'the shift is set from the arguments before the reference crystal is moved by it' if want_call is not None else 'the current shift is kept'), bool(ok),
+               'set_shift calls %s' % (calls,), node=fn, key='shift ' + tag)
     obj, ev, log, base, copies = setup(1)
     paths = ev.run_fn(fn, [obj], dict(boundaryshape='sphere'))
     ctx.ob('MONOPOLE', loc, 'an unknown boundary shape is refused', not [q for q in paths if q.done == 'return'], node=fn, key='shape')
@@ -361,9 +379,8 @@ def array(ctx):
         q = ev.block([tilt[0]], [Path({'burgers': Bv(), 'm': 'M', 'newvects': Vv.copy(), 'motionindex': 1})])
         nv = q[0].env['newvects']
         ok = equal(nv[1], want, deep=False) and equal(nv[0], Vv[0], deep=False) and equal(nv[2], Vv[2], deep=False)
-        ctx.ob('ARRAY', loc, 'b·m %s 0: the in-plane box vector along the motion direction is %s by b/2; the other vectors are kept' % ('>' if sign else '<=', 'shortened' if sign else 'extended'), bool(ok), node=tilt[0], key='tilt %s' % sign)
+        ctx.ob('ARRAY', loc, 'b·m %s 0: b/2 is %s the in-plane box vector along the motion direction (either way the cell gets shorter by |b·m|/2); the other vectors are kept' % ('>' if sign else '<=', 'subtracted from' if sign else 'added to'), bool(ok), node=tilt[0], key='tilt %s' % sign)
     t = norm(fn).replace(' ', '')
-    ctx.ob('ARRAY', loc, 'the new box keeps the origin; periodic except across the cut', 'newbox=Box(vects=newvects,origin=base_system.box.origin)' in t and 'newpbc=[True,True,True]' in t and 'newpbc[cutindex]=False' in t, node=fn, key='box')
     # refusals
     for tag, frag_test, envs in (('deleted-atom count differs from the count implied by the edge component', 'found != expected', [({'found': 5, 'expected': 4}, True), ({'found': 3, 'expected': 4}, True), ({'found': 4, 'expected': 4}, False)]),):
         st = [s for s in fn.body if isinstance(s, ast.If) and sorted(n_.id for n_ in ast.walk(s.test) if isinstance(n_, ast.Name)) == ['expected', 'found']]
@@ -383,12 +400,6 @@ def array(ctx):
         q = ev.block([st[0]], [Path({'expected': val})])
         oks.append(all(p.done == 'raise' for p in q) == must_raise)
     ctx.ob('ARRAY', loc, 'refused: a Burgers vector whose edge component does not remove a whole number of atoms', all(oks), str(oks), node=st[0], key='integer')
-    ctx.ob('ARRAY', loc, 'the expected count is natoms·(1 - new volume / old volume)', 'expected=base_system.natoms-base_system.natoms*newbox.volume/base_system.box.volume' in t, node=fn, key='expected')
-    st = [s for s in fn.body if isinstance(s, ast.If) and 'spos[:, cutindex]' in norm(s.test) and '0.5' in norm(s.test)]
-    ok = len(st) == 1 and any(isinstance(x, ast.Raise) for x in st[0].body) and '.sum()>0' in norm(st[0].test).replace(' ', '')
-    ctx.ob('ARRAY', loc, 'refused: atoms lying on the slip plane (relative cut coordinate 1/2)', ok, node=fn, key='slip plane')
-    ctx.ob('ARRAY', loc, 'the kept atoms record their index in the reference system (old_id = where(keep)) and are taken from the reference atoms', 'disl_system.atoms.old_id=np.where(ii)[0]' in t and 'atoms=base_system.atoms[ii]' in t, node=fn, key='old_id')
-    ctx.ob('ARRAY', loc, 'the elastic displacement is evaluated at (position - centre), added, and the system wrapped', 'disp=self.dislsol.displacement(disl_system.atoms.pos-center)' in t and 'disl_system.atoms.pos+=disp' in t and t.index('disl_system.atoms.pos+=disp') < t.rindex('disl_system.wrap()'), node=fn, key='displace')
     # linear displacement
     lfn = ctx.fn(PA, 'linear_displacement')
     x, y, L = sp.symbols('x y L', positive=True)
@@ -429,8 +440,11 @@ def array(ctx):
             return np.array([False, True, True])
     obj = SymObj(None, {'lineindex': 0, 'rcell': RC(), 'shift': SH, 'set_shift': lambda *a: None, 'set_systems': lambda b, d: log.append(('set_systems', b, d)),
                         'build_disl_array': lambda b, c, **k: (log.append(('build', b, np.array(c, dtype=object), k)) or disl), 'array_boundary': lambda box, w: (log.append(('array_boundary', box, w)) or Shape())}, 'self')
-    ev = SymEval(aliases)
-    ev.np_override = {'numpy.ceil': lambda v: sp.ceiling(v)}
+    def SymEvalPA():
+        e_ = SymEval(aliases)
+        e_.np_override = {'numpy.ceil': lambda v: sp.ceiling(v)}
+        return e_
+    ev = SymEvalPA()
     try:
         r = [q for q in ev.run_fn(pfn, [obj], dict(sizemults=(1, 4, 2), boundarywidth=sp.Integer(3), linear=True, cutoff=sp.Rational(1, 2))) if q.done == 'return']
     except Opaque as e:
@@ -449,6 +463,221 @@ def array(ctx):
     ctx.ob('ARRAY', locp, 'the reference system is reduced to the atoms kept (by their old_id), so that both stored systems correspond atom for atom', bool(ok), node=pfn, key='trim')
     ok = [int(v) for v in disl.atoms.atype] == [1, 4, 3] and tuple(disl.symbols) == ('Al', 'Cu', 'Al', 'Cu')
     ctx.ob('ARRAY', locp, 'atoms outside the inward-moved cut faces get type + natypes; symbols doubled', ok, str([int(v) for v in disl.atoms.atype]), node=pfn, key='retype')
+    TS = symarray('t', (3,), real=True)
+    for tag, kw, want_call, want_shift in (('shiftindex=0', dict(shiftindex=0), (None, 0, False), TS), ('shift vector', dict(shift='V'), ('V', None, False), TS), ('neither', {}, None, SH)):
+        del log[:]
+        base.atoms.pos = P.copy()
+        disl.atoms.atype = arr([1, 2, 1])
+        disl.symbols = ('Al', 'Cu')
+        obj.attrs['shift'] = SH
+        obj.attrs['set_shift'] = lambda *a: (log.append(('set_shift', a)), obj.attrs.__setitem__('shift', TS))[0]
+        try:
+            r = [q for q in SymEvalPA().run_fn(pfn, [obj], dict(sizemults=(1, 4, 2), **kw)) if q.done == 'return']
+        except Opaque as e:
+            raise AnalysisError('periodicarray (%s): %s' % (tag, e))
+        calls = [l[1] for l in log if l[0] == 'set_shift']
+        wr = [l for l in log if l[0] == 'wrap']
+        ok = len(r) == 1 and (calls == [want_call] if want_call is not None else calls == []) and len(wr) >= 1 and equal(wr[0][2], P + want_shift, deep=False)
+        ctx.ob('ARRAY', locp, '%s: %s' % (tag, 'the shift is set from the arguments before the reference crystal is moved by it' if want_call is not None else 'the current shift is kept'), bool(ok),
+               'set_shift calls %s' % (calls,), node=pfn, key='shift ' + tag)
+
+
+def _tobool(m):
+    m = np.asarray(m)
+    if m.dtype == object and all(v in (sp.true, sp.false, True, False) for v in m.ravel()):
+        return np.array([bool(v) for v in m.ravel()]).reshape(m.shape)
+    return m
+
+
+class MAtoms(PyStub):
+    """per-atom table: every property is sliced together (the part of Atoms the array generator relies on)"""
+    def __init__(self, view):
+        object.__setattr__(self, 'view', {k: np.array(v, dtype=object) for k, v in view.items()})
+
+    def __getattr__(self, k):
+        v = object.__getattribute__(self, 'view')
+        if k in v:
+            return v[k]
+        raise AttributeError(k)
+
+    def __setattr__(self, k, val):
+        val = np.array(list(val) if isinstance(val, range) else val, dtype=object)
+        if len(val) != len(self.view['pos']):
+            raise ModelError('ValueError', 'per-atom property %s of length %d for %d atoms' % (k, len(val), len(self.view['pos'])))
+        self.view[k] = val
+
+    @property
+    def natoms(self):
+        return len(self.view['pos'])
+
+    def __getitem__(self, ix):
+        ix = _tobool(ix)
+        return MAtoms({k: v[ix] for k, v in self.view.items()})
+
+    def __deepcopy__(self, memo=None):
+        return MAtoms({k: v.copy() for k, v in self.view.items()})
+
+
+class MBox(PyStub):
+    def __init__(self, vects=None, origin=None):
+        self._v = np.array(vects, dtype=object)
+        self._o = np.array(origin if origin is not None else [0, 0, 0], dtype=object)
+
+    @property
+    def vects(self):
+        return self._v.copy()
+
+    @property
+    def origin(self):
+        return self._o.copy()
+
+    @property
+    def volume(self):
+        return sp.Abs(sp.Matrix(self._v.tolist()).det())
+
+    def inv(self):
+        return np.array(sp.Matrix(self._v.tolist()).inv().tolist(), dtype=object)
+
+
+class MSys(PyStub):
+    def __init__(self, atoms=None, box=None, pbc=None, symbols=None):
+        self.atoms, self.box, self.pbc, self.symbols = atoms, box, list(pbc), symbols
+        self.wrapped = []
+
+    @property
+    def natoms(self):
+        return self.atoms.natoms
+
+    def atoms_prop(self, key=None, scale=False, **kw):
+        if key != 'pos' or not scale:
+            raise Opaque('atoms_prop(%s, scale=%s) on the model system' % (key, scale))
+        return (self.atoms.pos - self.box._o).dot(self.box.inv())
+
+    def dvect(self, i, js):
+        d = np.atleast_2d(self.atoms.pos[np.asarray(js, dtype=int)] - self.atoms.pos[int(i)]).dot(self.box.inv())
+        for r in range(d.shape[0]):
+            for k in range(3):
+                if self.pbc[k]:
+                    d[r, k] = d[r, k] - sp.floor(d[r, k] + sp.Rational(1, 2))
+        return d.dot(self.box._v)
+
+    def wrap(self):
+        self.wrapped.append(self.atoms.pos.copy())
+
+
+def array_model(ctx):
+    """build_disl_array evaluated on a 4x4 single-layer model crystal (exact rational positions, symbolic elastic field)"""
+    import copy
+    fn = ctx.fn(PA, 'build_disl_array')
+    loc = PA + '::build_disl_array'
+    R = sp.Rational
+    xs = [R(-7, 4), R(-3, 4), R(1, 4), R(5, 4)]
+    C = arr([R(1, 8), R(1, 16), 0])
+
+    def lin(rel, b, L):
+        sgn = sp.sign(rel[1])
+        return np.array([sgn * (R(1, 4) - rel[0] / (2 * L)) * bi for bi in b], dtype=object)
+
+    def run(burgers, linear, order, cutoff=R(1, 2), ys=None, **kw):
+        ys_ = ys or xs
+        pts = [[x, y, 0] for y in ys_ for x in xs] if order == 'rows' else [[x, y, 0] for x in reversed(xs) for y in reversed(ys_)]
+        P = np.array(pts, dtype=object)
+        base = MSys(atoms=MAtoms({'pos': P, 'atype': [1 + (i % 2) for i in range(len(P))], 'tag': [sp.Symbol('t%d' % i) for i in range(len(P))]}), box=MBox([[4, 0, 0], [0, 4, 0], [0, 0, 1]], [-2, -2, 0]),
+                    pbc=[True, True, True], symbols=('Al', 'Cu'))
+
+        class Sol(PyStub):
+            m, n = arr([1, 0, 0]), arr([0, 1, 0])
+
+            def displacement(self, x):
+                return np.array([[sp.Function('u%d' % j)(*row) for j in range(3)] for row in np.asarray(x, dtype=object)], dtype=object)
+        Sol.burgers = arr(burgers)
+        obj = SymObj(None, {'dislsol': Sol(), 'lineindex': 2, 'cutindex': 1, 'motionindex': 0}, 'self')
+        ev = SymEval(module_aliases(ctx.mod(PA)))
+        ev.module = ctx.mod(PA)
+        ev.funcs['linear_displacement'] = ctx.fn(PA, 'linear_displacement')
+        made = []
+
+        def mk(**k):
+            made.append(MSys(**k))
+            return made[-1]
+
+        def close(a, b, rtol=R(1, 10 ** 5), atol=R(1, 10 ** 8), **k):
+            f = lambda v: bool(sp.Abs(sp.sympify(v) - b) <= atol + rtol * abs(b))
+            return np.array([f(v) for v in np.ravel(a)]).reshape(np.shape(a)) if np.ndim(a) else f(a)
+        ev.globals = {'System': mk, 'Box': lambda **k: MBox(**k), 'deepcopy': lambda x: x.copy() if isinstance(x, np.ndarray) else copy.deepcopy(x), 'round': lambda x: sp.floor(x + R(1, 2)), 'int': lambda x: x}
+        ev.np_override = {'numpy.isclose': close}
+        args = dict(linear=linear, bwidth=sp.Integer(1), cutoff=cutoff)
+        args.update(kw)
+        try:
+            paths = ev.run_fn(fn, [obj, base, C], args)
+        except WouldRaise as e:
+            return 'raise', None, base, P, str(e)
+        except Opaque as e:
+            raise AnalysisError('build_disl_array on the model crystal: %s' % e)
+        live = [q for q in paths if q.done == 'return']
+        if len(live) != 1:
+            return 'raise', None, base, P, ''
+        return 'ok', live[0].ret, base, P, ''
+    n = 0
+    for tag, burgers, linear, order in (('edge b=+m, elastic field blended with the linear one', [1, 0, 0], False, 'rows'), ('edge b=+m, linear field only', [1, 0, 0], True, 'rows'),
+                                        ('edge b=-m, blended, atoms listed column by column', [-1, 0, 0], False, 'cols'), ('mixed b=m+xi/2, blended', [1, 0, R(1, 2)], False, 'cols'),
+                                        ('screw b=xi, blended', [0, 0, 1], False, 'rows')):
+        n += 1
+        st, d, base, P, why = run(burgers, linear, order)
+        if st != 'ok' or not isinstance(d, MSys):
+            ctx.ob('ARRAY', loc, '%s: the array is built' % tag, False, why, node=fn, key='model built ' + tag)
+            continue
+        b = arr(burgers)
+        edge = b[0]
+        want_removed = 2 if edge != 0 else 0
+        ids = [int(v) for v in d.atoms.view.get('old_id', [])]
+        ctx.ob('ARRAY', loc, '%s: exactly %d of the 16 atoms are removed (the count implied by the edge component)' % (tag, want_removed), d.natoms == 16 - want_removed, '%d atoms left' % d.natoms, node=fn, key='model count ' + tag)
+        ok = len(ids) == d.natoms and len(set(ids)) == len(ids) and all(0 <= i < 16 for i in ids) and all(d.atoms.tag[k] == base.atoms.tag[i] and d.atoms.atype[k] == base.atoms.atype[i] for k, i in enumerate(ids))
+        ctx.ob('ARRAY', loc, '%s: old_id maps every remaining atom to the reference atom it was taken from (same type and properties)' % tag, bool(ok), str(ids), node=fn, key='model old_id ' + tag)
+        if not ok:
+            continue
+        # new cell
+        wantv = np.array([[4, 0, 0], [0, 4, 0], [0, 0, 1]], dtype=object)
+        wantv[0] = wantv[0] - sp.sign(edge) * b / 2 if edge != 0 else wantv[0] + b / 2
+        okb = equal(d.box._v, wantv, deep=False) and equal(d.box._o, arr([-2, -2, 0]), deep=False) and list(d.pbc) == [True, False, True]
+        ctx.ob('ARRAY', loc, '%s: the cell keeps its origin, its in-plane vector along m changes by b/2 (shorter by |b.m|/2), and it is periodic except across the slip plane' % tag, bool(okb),
+               'vects %s pbc %s' % (d.box._v.tolist(), d.pbc), node=fn, key='model box ' + tag)
+        # displacement of every remaining atom
+        L = sp.Integer(4)
+        rel = [P[i] - C for i in ids]
+        U = [[sp.Function('u%d' % j)(*r) for j in range(3)] for r in rel]
+        mean_cut = sum(u[1] for u in U) / len(U)
+        bad = []
+        for k, i in enumerate(ids):
+            y = P[i][1]
+            if linear or y <= -2 + 1 or y >= 2 - 1:
+                want = P[i] + lin(rel[k], b, L)
+            else:
+                want = P[i] + np.array([U[k][0], U[k][1] - mean_cut, U[k][2]], dtype=object)
+            if not equal(d.atoms.pos[k], want, deep=False):
+                bad.append('atom %d (reference atom %d at %s)' % (k, i, list(P[i])))
+        ctx.ob('ARRAY', loc, '%s: each remaining atom is its reference atom displaced by the field evaluated at that atom\'s own reference position relative to the centre (%s)' % (
+            tag, 'linear field' if linear else 'elastic solution, mean normal component removed; linear field within the boundary width of the two surfaces'), not bad, '; '.join(bad[:3]), node=fn, key='model disp ' + tag)
+        ctx.ob('ARRAY', loc, '%s: the system is wrapped after the displacement' % tag, len(d.wrapped) >= 1 and equal(d.wrapped[-1], d.atoms.pos, deep=False), node=fn, key='model wrap ' + tag)
+        # no two remaining atoms coincide (linear field, new periodicity)
+        ref = MSys(atoms=MAtoms({'pos': np.array([P[i] + lin(P[i] - C, b, L) for i in ids], dtype=object)}), box=MBox(wantv, [-2, -2, 0]), pbc=[True, False, True])
+        close_pairs = []
+        for a_ in range(len(ids) - 1):
+            dv = ref.dvect(a_, list(range(a_ + 1, len(ids))))
+            for off, row in enumerate(dv):
+                if sum(x ** 2 for x in row) < R(1, 4):
+                    close_pairs.append((ids[a_], ids[a_ + 1 + off]))
+        ctx.ob('ARRAY', loc, '%s: no two remaining atoms lie within the cutoff of each other across the new periodic boundaries' % tag, not close_pairs, str(close_pairs[:3]), node=fn, key='model overlap ' + tag)
+    ctx.floor('ARRAY', n, 5)
+    # refusals on the model crystal
+    st, d, base, P, why = run([1, 0, 0], False, 'rows', ys=[R(-7, 4), R(-3, 4), 0, R(5, 4)])
+    ctx.ob('ARRAY', loc, 'refused: an atom on the slip plane (model crystal with a row at relative height 1/2)', st == 'raise', node=fn, key='model slip plane')
+    st, d, base, P, why = run([R(1, 3), 0, 0], False, 'rows')
+    ctx.ob('ARRAY', loc, 'refused: b = m/3 on the 16-atom model crystal (2/3 of an atom to remove)', st == 'raise', node=fn, key='model integer')
+    st, d, base, P, why = run([1, 0, 0], False, 'rows', cutoff=R(1, 100))
+    ctx.ob('ARRAY', loc, 'refused: cutoff so small that fewer coincident atoms are found than the edge component implies', st == 'raise', node=fn, key='model found fewer')
+    st, d, base, P, why = run([1, 0, 0], False, 'rows', cutoff=R(99, 100))
+    ctx.ob('ARRAY', loc, 'refused: cutoff so large that more atoms are found than the edge component implies', st == 'raise', node=fn, key='model found more')
 
 
 def disregistry(ctx):
@@ -459,4 +688,4 @@ def run(ctx):
     ctx.explanation = ('C13: the orientation table, slip-plane shifts, monopole and periodic-array generators and their boundary regions are evaluated on symbolic / model inputs with recording stubs: '
                        'which vector goes in which cell row (handedness), shifts midway between planes, the supersize -> shift -> wrap -> copy -> displace -> pbc -> wrap sequence and its arguments, '
                        'symmetric multipliers, boundary re-typing, cylinder radius on model cross-sections, the b/2 box tilt, refusals, old_id, the linear field. Not decided: the disregistry integral, overlaps.')
-    ctx.run_rules([orient, shifts, monopole, boundary, array, disregistry])
+    ctx.run_rules([orient, shifts, monopole, boundary, array, array_model, disregistry])
